@@ -1,7 +1,7 @@
 (* Eval/MarksNI_Main.v — C06: the non-interference theorems in their final form; hcl.Index. *)
 From Coq Require Import QArith.
-From HclV Require Import Base.Prelude Cty.Values Cty.Convert Cty.Ops Eval.Impl
-     Eval.MarksNI Eval.MarksNI_Ops Eval.MarksNI_Index Eval.MarksNI_Funcs Eval.MarksNI_Eval Eval.MarksNI_Wf.
+From HclV Require Import Base.Prelude Cty.Values Cty.Convert Cty.Ops Eval.Impl Eval.Funcs
+     Eval.MarksNI Eval.MarksNI_Ops Eval.MarksNI_Index Eval.MarksNI_Funcs Eval.MarksNI_Steps Eval.MarksNI_Eval Eval.MarksNI_Wf.
 Open Scope Z_scope.
 
 (* ---- hcl.Index --------------------------------------------------------------------------------- *)
@@ -94,6 +94,7 @@ Theorem marks_noninterference_partial :
   forall (m : Z) (idx : val -> val -> val * list diag) (Cx : ctx -> Prop),
     (forall c, Cx c -> wf_ctx c) ->
     (forall c, Cx c -> funcs_wf c) ->
+    (forall c vars, Cx c -> (forall k v, In (k, v) vars -> wf v) -> Cx (child_ctx c vars)) ->
     (forall c k, wf c -> wf k -> wf (fst (idx c k))) ->
   forall fuel c1 c2 a1 a2 e v1 ds1 v2 ds2,
     in_fragment m idx Cx e ->
@@ -104,20 +105,32 @@ Theorem marks_noninterference_partial :
     has_unsupported ds1 = false -> has_unsupported ds2 = false ->
     erase m v1 = erase m v2.
 Proof.
-  intros m idx Cx Hwf Hfw Hidx fuel c1 c2 a1 a2 e v1 ds1 v2 ds2 Fe HL HA HF C1 C2 W1 W2 E1 E2 A1 A2 B1 B2.
-  eapply (ni_all m idx Cx Hwf); try eassumption; try (split; assumption).
+  intros m idx Cx Hwf Hfw Hch Hidx fuel c1 c2 a1 a2 e v1 ds1 v2 ds2 Fe HL HA HF C1 C2 W1 W2 E1 E2 A1 A2 B1 B2.
+  eapply (ni_all m idx Cx Hwf Hch); try eassumption; try (split; assumption).
   intros. eapply (eval_wf m idx Cx); eassumption.
 Qed.
 
-Lemma key_ok_repaired m key : key_ok m index_repaired key.
+(* hcl.Index is non-interfering on every collection that is not of object type, whatever the key
+   (since f033bd0 the dynamic early exit keeps the marks of the key). *)
+Theorem index_ni_nonobj m : idx_ni_nonobj m index.
+Proof.
+  intros c1 c2 k1 k2 r1 r2 ds1 ds2 Lc Lk Wc1 _ Wk1 _ O1 O2 E1 E2 A1 A2 B1 B2.
+  eapply index_leq_nonobj; [exact Lc|exact Lk|exact Wc1|exact Wk1|exact O1|exact O2|exact E1|exact E2
+                           |split; assumption|split; assumption].
+Qed.
+
+Lemma key_ok_repaired m Cx coll key : key_ok m index_repaired Cx coll key.
 Proof. left. apply index_repaired_ni. Qed.
-Lemma key_ok_index_lit m k : key_ok m index (ELit k).
-Proof. right. exists k. split; [reflexivity|apply index_ni_key]. Qed.
+Lemma key_ok_index_lit m Cx coll k : key_ok m index Cx coll (ELit k).
+Proof. right. left. exists k. split; [reflexivity|apply index_ni_key]. Qed.
+Lemma key_ok_index_nonobj m Cx coll key : nonobj index Cx coll -> key_ok m index Cx coll key.
+Proof. intro H. right. right. split; [apply index_ni_nonobj|exact H]. Qed.
 
 (* with hcl.Index repaired: index expressions with arbitrary keys *)
 Corollary marks_noninterference_repaired :
   forall (m : Z) (Cx : ctx -> Prop),
     (forall c, Cx c -> wf_ctx c) -> (forall c, Cx c -> funcs_wf c) ->
+    (forall c vars, Cx c -> (forall k v, In (k, v) vars -> wf v) -> Cx (child_ctx c vars)) ->
   forall fuel c1 c2 a1 a2 e v1 ds1 v2 ds2,
     in_fragment m index_repaired Cx e ->
     low_eq m c1 c2 -> leq_opt m a1 a2 -> funcs_ni m c1 ->
@@ -126,12 +139,13 @@ Corollary marks_noninterference_repaired :
     has_errors ds1 = false -> has_errors ds2 = false ->
     has_unsupported ds1 = false -> has_unsupported ds2 = false ->
     erase m v1 = erase m v2.
-Proof. intros m Cx H1 H2. apply marks_noninterference_partial; auto using index_repaired_wf. Qed.
+Proof. intros m Cx H1 H2 H3. apply marks_noninterference_partial; auto using index_repaired_wf. Qed.
 
 (* the implementation as it is (eval = eval_with index) *)
 Corollary marks_noninterference_eval :
   forall (m : Z) (Cx : ctx -> Prop),
     (forall c, Cx c -> wf_ctx c) -> (forall c, Cx c -> funcs_wf c) ->
+    (forall c vars, Cx c -> (forall k v, In (k, v) vars -> wf v) -> Cx (child_ctx c vars)) ->
   forall fuel c1 c2 a1 a2 e v1 ds1 v2 ds2,
     in_fragment m index Cx e ->
     low_eq m c1 c2 -> leq_opt m a1 a2 -> funcs_ni m c1 ->
@@ -140,12 +154,13 @@ Corollary marks_noninterference_eval :
     has_errors ds1 = false -> has_errors ds2 = false ->
     has_unsupported ds1 = false -> has_unsupported ds2 = false ->
     erase m v1 = erase m v2.
-Proof. intros m Cx H1 H2. unfold eval. apply marks_noninterference_partial; auto using index_wf'. Qed.
+Proof. intros m Cx H1 H2 H3. unfold eval. apply marks_noninterference_partial; auto using index_wf'. Qed.
 
 (* hcl.Expression.Value *)
 Corollary marks_noninterference_value :
   forall (m : Z) (Cx : ctx -> Prop),
     (forall c, Cx c -> wf_ctx c) -> (forall c, Cx c -> funcs_wf c) ->
+    (forall c vars, Cx c -> (forall k v, In (k, v) vars -> wf v) -> Cx (child_ctx c vars)) ->
   forall c1 c2 e v1 ds1 v2 ds2,
     in_fragment m index Cx e ->
     low_eq m c1 c2 -> funcs_ni m c1 -> Cx c1 -> Cx c2 ->
@@ -154,6 +169,68 @@ Corollary marks_noninterference_value :
     has_unsupported ds1 = false -> has_unsupported ds2 = false ->
     erase m v1 = erase m v2.
 Proof.
-  intros m Cx H1 H2 c1 c2 e v1 ds1 v2 ds2 Fe HL HF C1 C2 E1 E2. unfold value in E1, E2.
-  eapply (marks_noninterference_eval m Cx H1 H2); try eassumption; exact I.
+  intros m Cx H1 H2 H3 c1 c2 e v1 ds1 v2 ds2 Fe HL HF C1 C2 E1 E2. unfold value in E1, E2.
+  eapply (marks_noninterference_eval m Cx H1 H2 H3); try eassumption; exact I.
+Qed.
+
+(* ---- the canonical class of contexts: all values well-formed, all functions well-behaved ------- *)
+Definition ctx_ok (c : ctx) : Prop := wf_ctx c /\ funcs_wf c.
+
+Lemma ctx_ok_wf c : ctx_ok c -> wf_ctx c.
+Proof. intros [H _]; exact H. Qed.
+Lemma ctx_ok_funcs c : ctx_ok c -> funcs_wf c.
+Proof. intros [_ H]; exact H. Qed.
+Lemma ctx_ok_child c vars : ctx_ok c -> (forall k v, In (k, v) vars -> wf v) -> ctx_ok (child_ctx c vars).
+Proof.
+  intros [H1 H2] Hv. split.
+  - intros fr vs k v [<-|I] F Iv.
+    + cbn [child_ctx fvars] in F. injection F as <-. eapply Hv; exact Iv.
+    + eapply H1; eassumption.
+  - intros fr fs name f [<-|I] F G; [discriminate F|]. eapply H2; eassumption.
+Qed.
+
+Corollary marks_noninterference_value_ok :
+  forall (m : Z) c1 c2 e v1 ds1 v2 ds2,
+    in_fragment m index ctx_ok e ->
+    low_eq m c1 c2 -> funcs_ni m c1 -> ctx_ok c1 -> ctx_ok c2 ->
+    value c1 e = (v1, ds1) -> value c2 e = (v2, ds2) ->
+    has_errors ds1 = false -> has_errors ds2 = false ->
+    has_unsupported ds1 = false -> has_unsupported ds2 = false ->
+    erase m v1 = erase m v2.
+Proof. intro m. apply (marks_noninterference_value m ctx_ok ctx_ok_wf ctx_ok_funcs ctx_ok_child). Qed.
+
+Corollary marks_noninterference_eval_ok :
+  forall (m : Z) fuel c1 c2 a1 a2 e v1 ds1 v2 ds2,
+    in_fragment m index ctx_ok e ->
+    low_eq m c1 c2 -> leq_opt m a1 a2 -> funcs_ni m c1 ->
+    ctx_ok c1 -> ctx_ok c2 -> wf_opt a1 -> wf_opt a2 ->
+    eval fuel c1 a1 e = (v1, ds1) -> eval fuel c2 a2 e = (v2, ds2) ->
+    has_errors ds1 = false -> has_errors ds2 = false ->
+    has_unsupported ds1 = false -> has_unsupported ds2 = false ->
+    erase m v1 = erase m v2.
+Proof. intro m. apply (marks_noninterference_eval m ctx_ok ctx_ok_wf ctx_ok_funcs ctx_ok_child). Qed.
+
+Corollary marks_noninterference_repaired_ok :
+  forall (m : Z) fuel c1 c2 a1 a2 e v1 ds1 v2 ds2,
+    in_fragment m index_repaired ctx_ok e ->
+    low_eq m c1 c2 -> leq_opt m a1 a2 -> funcs_ni m c1 ->
+    ctx_ok c1 -> ctx_ok c2 -> wf_opt a1 -> wf_opt a2 ->
+    eval_with index_repaired fuel c1 a1 e = (v1, ds1) -> eval_with index_repaired fuel c2 a2 e = (v2, ds2) ->
+    has_errors ds1 = false -> has_errors ds2 = false ->
+    has_unsupported ds1 = false -> has_unsupported ds2 = false ->
+    erase m v1 = erase m v2.
+Proof. intro m. apply (marks_noninterference_repaired m ctx_ok ctx_ok_wf ctx_ok_funcs ctx_ok_child). Qed.
+
+(* the harness table *)
+Definition harness_funcs : list (list Z * fn) :=
+  [([102;97;105;108], fn_fail); ([102;105;114;115;116], fn_first); ([105;115;110;117;108;108], fn_isnull);
+   ([112;97;105;114], fn_pair); ([115;117;109], fn_sum); ([117;112;112;101;114], fn_upper)].
+
+Lemma harness_funcs_ok m : forall name f, assoc_get name harness_funcs = Some f -> fn_ok m f.
+Proof.
+  intros name f H. unfold harness_funcs in H. cbn [assoc_get] in H.
+  repeat match type of H with
+         | (if ?b then _ else _) = _ => destruct b; [injection H as <-|]
+         end; try discriminate H;
+    first [apply fn_fail_ok|apply fn_first_ok|apply fn_isnull_ok|apply fn_pair_ok|apply fn_sum_ok|apply fn_upper_ok].
 Qed.
